@@ -5,7 +5,7 @@
    what the source says now. *)
 From Coq Require Import List NArith ZArith Bool.
 From MirV Require Import Mir.Opcode C15.Defs gen.InsnDescs C15.Validate C15.DocModes C15.TableProofs
-  C15.ValidateProofs.
+  C15.ValidateProofs C15.VarProofs C15.FuncProofs.
 Import ListNotations.
 
 (* insn_descs[] is usable as the checker uses it: one row per opcode below MIR_INSN_BOUND, row i
@@ -41,3 +41,49 @@ Theorem validate_iff_doc_fixed : forall unspec fc ins sig,
   (check_insn unspec fc ins = Ok tt <-> doc_insn_ok fc ins = true).
 Proof. exact validate_iff_doc_fixed_lemma. Qed.
 Print Assumptions validate_iff_doc_fixed.
+
+(* THE property, for whole function bodies: in every function context the API can build (fc_wf),
+   whose result types passed MIR_new_func's check, for EVERY list of instructions (any opcodes
+   MIR.md documents, any number of operands, any operands, any prototypes whose parameter types
+   are data or block types): creating all the instructions and finishing the function raises no
+   error exactly when MIR.md allows every instruction (operand count, operand classes, output
+   operands being registers or memory, declared registers, ret matching the result types, calls
+   matching their prototypes incl. block arguments and variable parts, switch) and the function
+   rules hold (ret/jret discipline, va_start only in vararg functions, overflow branches after
+   their producer).  Fixed-arity opcodes: finite sweep (vm_compute) lifted to all operand lists;
+   ret/switch/call/inline/jcall: induction over the operand list; bodies: induction over the
+   instruction list. *)
+Theorem validate_iff_doc : forall unspec fc insns,
+  fc_wf fc -> res_types_ok fc = true -> forallb insn_in_domain insns = true ->
+  (check_body unspec fc insns = Ok tt <-> doc_func_ok fc insns = true).
+Proof. exact validate_iff_doc_lemma. Qed.
+Print Assumptions validate_iff_doc.
+
+(* call / inline / jcall alone: any operand list, any prototype *)
+Theorem validate_iff_doc_call : forall unspec fc code ops,
+  is_call code = true -> fc_wf fc -> insn_in_domain {| i_code := code; i_ops := ops |} = true ->
+  is_ok (check_new_insn unspec code ops) && is_ok (check_ops unspec fc {| i_code := code; i_ops := ops |})
+  = doc_call_ok fc ops.
+Proof. exact validate_call_bool. Qed.
+Print Assumptions validate_iff_doc_call.
+
+(* ret: header count check + operand loop = "operands correspond to the return types" *)
+Theorem validate_iff_doc_ret : forall unspec fc ops, fc_wf fc -> res_types_ok fc = true ->
+  (length ops =? length (f_res fc)) && is_ok (check_ops unspec fc {| i_code := RET; i_ops := ops |})
+  = doc_ret_ok fc (f_res fc) ops.
+Proof. exact validate_ret_bool. Qed.
+Print Assumptions validate_iff_doc_ret.
+
+Theorem validate_iff_doc_switch : forall unspec fc ops, fc_wf fc ->
+  is_ok (check_new_insn unspec SWITCH ops) && is_ok (check_ops unspec fc {| i_code := SWITCH; i_ops := ops |})
+  = doc_switch_ok fc ops.
+Proof. exact validate_switch_bool. Qed.
+Print Assumptions validate_iff_doc_switch.
+
+(* the guard [insn_in_domain] is needed: outside the documented codes the checker accepts e.g. the
+   pseudo instruction invalid-insn (not one of the ill-formedness classes the property lists) *)
+Theorem validate_iff_doc_guard_needed :
+  exists ins, insn_in_domain ins = false
+              /\ check_body [] {| f_vararg := false; f_res := []; f_regs := []; f_nvars := 0; f_nglobals := 0 |} [ins] = Ok tt.
+Proof. exact undocumented_code_accepted. Qed.
+Print Assumptions validate_iff_doc_guard_needed.
